@@ -3,12 +3,22 @@
 Two or three threads parse (or dump) independent streams with the same type objects under a controlled scheduler that can
 switch threads at every source line of the library.  Schedules: all with at most two pre-emptions on a grid of switch
 points, plus seeded random ones.  Every thread's result is compared with what it obtains running alone.
+
+Round 10 (harness/v10_c15.py): BY-NAME RESOLUTION UNDER INTERLEAVING.  The parses above never ask the shared cstruct object for a
+type by name (fields hold resolved classes); this family walks the entry points that do - sizeof(<name>) in array dimensions
+(parsed by class call on bytes / bytearray / memoryview / file, .read, .reads, then dumped), cs.read(name, ...), cs.<name>,
+cs.resolve(name) - with <name> the top of a chain of 1..9 string references (cs.add_type('b', 'a')) over scalars, built-in
+aliases, structures, enums and array typedefs, chain lengths biased to the documented limit of 10, plus names that do not resolve
+(chain too deep, dangling reference: the same error under every schedule).  The sequential reference is itself checked against
+harness-computed values (array length from the table of base sizes, value equal to the one read through the base class).
+The write footprint extracted by harness/translate.py (Lean theorem c15_footprint) now also covers cstruct.py: a write to an
+attribute of the cstruct object inside resolve / read / __getattr__ / _make_* (anything but the definition-time methods) is shared.
 """
 from __future__ import annotations
 
 import itertools
 
-from .. import common, defs, impl
+from .. import common, defs, impl, v10_c15
 from ..common import Case, Result, mkrng
 from ..sched import Scheduler, count_steps
 
@@ -30,7 +40,13 @@ def run(env) -> Result:
                 "pointers with dereference, enums/wchar/LEB128) x {interpreted, compiled}; 2 threads (3 in thorough) parse and dump different "
                 "inputs with the same types; schedules: every pair of switch points on a grid (<= 2 pre-emptions) plus seeded random "
                 "schedules switching at source-line granularity inside the library. distinct = (definition, mode, schedule); non-trivial = "
-                "at least one pre-emption inside a parse")
+                "at least one pre-emption inside a parse. "
+                "By-name family (v10_c15): per mode 4 (thorough 14) scenarios on a fresh cstruct object (random endianness) whose threads resolve "
+                "names at run time - sizeof(name) in an array dimension x 6 calling conventions of the structure, cs.read(name, file|bytes), "
+                "cs.<name>, cs.resolve(name) - name = top of a chain of 1..9 add_type string references (edge-biased; first scenario exactly at "
+                "the 10-lookup limit) over scalar / built-in alias / struct / enum / array-typedef bases, or a name that does not resolve "
+                "(11..14 references, dangling); schedules: every single pre-emption on a grid in both directions, two pre-emptions on a coarser "
+                "grid, random, bursts; each thread = its result alone, and the result alone = the harness-computed array length / value")
     dc = impl.dc()
     rnd = mkrng(env["seed"], "c15")
     tier = env["tier"]
@@ -106,6 +122,7 @@ def run(env) -> Result:
                          "F1" if "[" in text and any(c in text for c in "+-*%&") else None)
                     break
         res.sample({"definition": text, "compiled": compiled, "line_steps_alone": lens, "schedules": len(scheds)}, 4)
+    v10_c15.run(env, res, viol)
     return res
 
 
